@@ -18,6 +18,12 @@ func init() {
 }
 
 func c15(c *Ctx) {
+	{
+		cd := "fuse.(*RootNode).createDatabase"
+		c.Before("recreate/fuse-create-goes-through-CreateDB", cd, c.P.SuccessReturn, c.P.Calls("litefs.(*Store).CreateDB"), 1,
+			"a CREATE of a database file answers success only after Store.CreateDB - which is what re-creates a dropped database (a registered DB object without files)", "the kernel sends CREATE only for a name that does not resolve, i.e. a new or a dropped database: opening the registered object instead answers ENOENT and the name can never be created again")
+		c.ExpectAll("recreate/fuse-handle-on-created-file", c.CallArgs(cd, c.P.PlainCalls("fuse.newDatabaseHandle"), 1), pat("litefs.(*Store).CreateDB(@@)#1"), 1, "the handle returned wraps the file CreateDB created", "")
+	}
 	c.EdgeReturns("restart/wal-of-a-dropped-database-is-skipped", "litefs.(*DB).CheckpointNoLock", GP("os.IsNotExist(litefs.OS.OpenFile(p0.os, @@DatabasePath@@)#1)", true), "nil", 1,
 		"the start-up checkpoint skips a WAL whose database file does not exist (the state a connection opened before a drop leaves behind)", "the node could not start again and the name could not be re-created; Open re-applies the drop afterwards, which removes the stray WAL")
 	c.NoPathFromEdge("restart/missing-database-file-keeps-the-log", "litefs.(*DB).initFromDatabaseHeader", GP("os.IsNotExist(litefs.OS.Open(p0.os, @@DatabasePath@@)#1)", true), c.P.PlainCalls("litefs.(*DB).clean"), 1,
